@@ -366,8 +366,12 @@ pub fn gen_case(rng: &mut Rng, _tier: &str, _profile: &str, stats: &mut Stats) -
             _ => auth.len(),
         };
         let mut header = Vec::new();
-        let pid: Vec<u8> = if rng.chance(1, 12) { b"discv4".to_vec() } else { PID.to_vec() };
-        let ver: Vec<u8> = if rng.chance(1, 12) { vec![0, 2] } else { VER.to_vec() };
+        let pid: Vec<u8> = if rng.chance(1, 10) {
+            match rng.below(3) { 0 => b"discv4".to_vec(), 1 => b"Discv5".to_vec(), _ => { let mut x = PID.to_vec(); let i = rng.below(6) as usize; x[i] ^= 1 << rng.below(8); x } }
+        } else { PID.to_vec() };
+        let ver: Vec<u8> = if rng.chance(1, 8) {
+            match rng.below(4) { 0 => vec![0, 2], 1 => vec![0, 0], 2 => vec![1, 1], _ => rng.bytes(2) }
+        } else { VER.to_vec() };
         header.extend_from_slice(&pid);
         header.extend_from_slice(&ver);
         header.push(flag);
